@@ -6,15 +6,17 @@ use wow_srp::verif_hooks::rand as vr;
 struct Hist { verdicts: Vec<u8>, chals: Vec<u8>, attempts: Vec<u8>, tape: Vec<u8>, kinds: Vec<&'static str> }
 
 /// drive a random history of attempts against a logged-in server; server challenges are injected
-fn history(rng: &mut Rng, l: &mut Login, n: usize, fails: &mut Vec<String>, inject: bool) -> Hist {
+fn history(rng: &mut Rng, l: &mut Login, n: usize, fails: &mut Vec<String>, inject: bool) -> Hist { history_plan(rng, l, n, fails, inject, None) }
+/// `plan`: per attempt, whether it is a correct one (true) or one of the wrong kinds (false); None = random mix
+fn history_plan(rng: &mut Rng, l: &mut Login, n: usize, fails: &mut Vec<String>, inject: bool, plan: Option<&[bool]>) -> Hist {
     let un = ns(&l.u);
     let ub = un.as_ref().as_bytes().to_vec();
     let mut h = Hist { verdicts: vec![], chals: vec![], attempts: vec![], tape: vec![], kinds: vec![] };
     let mut past: Vec<([u8; 16], [u8; 20], bool)> = Vec::new();
     let mut stale: Vec<[u8; 16]> = Vec::new();
-    for _ in 0..n {
+    for step_ in 0..n {
         let cur = *l.server.reconnect_challenge_data();
-        let kind = rng.below(9);
+        let kind = match plan { Some(p) => if p[step_] { 0 } else { 3 + rng.below(5) }, None => rng.below(9) };
         let cc: [u8; 16] = rng.arr();
         vr::install_tape(&cc);
         let honest = l.client.calculate_reconnect_values(cur);
@@ -96,6 +98,26 @@ pub fn run(ctx: &mut Ctx) {
         let len = rng.range(1, 300) as usize;
         let _ = history(&mut rng, &mut l, len, &mut fails, k % 2 == 0);
         ctx.oracle_runs += len as u64;
+    }
+    // ---- long runs of one verdict: R rejected attempts in a row and then a correct one (the legitimate client can
+    //      always reconnect, whatever was thrown at the session before), A accepted in a row and then a wrong one;
+    //      R and A around every power of two up to 1024 (and 65536 in the thorough tier)
+    let mut rng = ctx.rng("runs");
+    let mut lens: Vec<usize> = vec![1, 2, 3, 7, 8, 9, 15, 16, 17, 31, 32, 33, 63, 64, 65, 127, 128, 129, 254, 255, 256, 257, 258, 300, 511, 512, 513, 1023, 1024, 1025];
+    if !ctx.quick() { lens.extend([4095, 4096, 4097, 65534, 65535, 65536, 65537, 70000]); }
+    for (k, len) in lens.iter().enumerate() {
+        for accepted_run in [false, true] {
+            let u = rand_cred(&mut rng, 1 + k % 16);
+            let mut l = match login(&u, "x", &u, "X", &rng.bytes(112)) { Ok(l) => l, Err(_) => continue };
+            let mut plan = vec![accepted_run; *len];
+            plan.extend([!accepted_run, accepted_run, !accepted_run, !accepted_run]);
+            let before = fails.len();
+            let _ = history_plan(&mut rng, &mut l, plan.len(), &mut fails, k % 2 == 0, Some(&plan));
+            // one report per run is enough: keep the first failure and say where the run stood
+            if fails.len() > before { let first = fails[before].clone(); fails.truncate(before); fails.push(first.replacen("{", &format!("{{\"run\":\"{} {} attempts in a row, then the opposite\",", len, if accepted_run { "accepted" } else { "rejected" }), 1)); }
+            ctx.oracle_runs += plan.len() as u64;
+            ctx.count(if accepted_run { "runs:accepted-then-wrong" } else { "runs:rejected-then-correct" });
+        }
     }
     for f in fails { ctx.fail("reconnect", f); }
 }
